@@ -30,6 +30,7 @@ var sinkPrefixes = []string{
 	"github.com/sirupsen/logrus",
 	"github.com/prometheus/",
 	"k8s.io/klog",
+	"github.com/alecthomas/kingpin", // command-line flags: every flag variable is a nil pointer until a harness sets it
 }
 
 func (P *Program) isSinkPkg(path string) bool {
